@@ -187,4 +187,18 @@ example :
       [⟨6, 130000, 9, 255, 9, [1, 2, 3, 4, 5, 6, 7, 1, 2]⟩] := by
   decide
 
+/-- arrival times are unconstrained in every theorem above; in particular the instant at which the 32-bit millisecond
+clock reads 0 is not special: a slot whose first frame arrived at clock value 0 (`msgTime = 0`, the value
+`FreeMessage` leaves in a free slot) is busy, and the first frame of another sender in the same millisecond takes another
+slot. Executable instance (first frames at 2^32, five slots, both messages delivered): -/
+example :
+    let fr (pgn src b0 b1 : Nat) : Frame := ⟨3, pgn, src, 255, 8, [b0, b1, 1, 2, 3, 4, 5, 6]⟩
+    let evs : List (Nat × Frame) :=
+      [(4294967296, fr 129029 30 0x20 9), (4294967296, fr 129540 31 0x40 9),
+       (4294967297, fr 129029 30 0x21 7), (4294967298, fr 129540 31 0x41 8)]
+    ((run {} (init 5) (evs.take 1)).slot 0).msgTime = 0 ∧ ((run {} (init 5) (evs.take 1)).slot 0).free = false ∧
+    delivered {} (init 5) evs =
+      [⟨3, 129029, 30, 255, 9, [1, 2, 3, 4, 5, 6, 7, 1, 2]⟩, ⟨3, 129540, 31, 255, 9, [1, 2, 3, 4, 5, 6, 8, 1, 2]⟩] := by
+  decide
+
 end N2k.C02
